@@ -59,6 +59,13 @@ void *realloc(void *ptr, size_t len)
     if (len % __WORDSIZE != 0)
         len += (__WORDSIZE - (len % __WORDSIZE));
 
+    /*
+     * Same minimum chunk size as in malloc(): a chunk must be able to
+     * hold the freelist link once it is released.
+     */
+    if (len < sizeof(struct __freelist) - sizeof(size_t))
+        len = sizeof(struct __freelist) - sizeof(size_t);
+
     struct __freelist *fp1, *fp2, *fp3, *ofp3;
     char *cp, *cp1;
     void *memp;
